@@ -40,6 +40,7 @@ package rest
 
 //@ func (api *API) sendResponse
 //@   property C11
+//@   at_call json.Encoder.Encode assert [error-document-carries-the-status-sent] errorResp.Code == httpLastStatus
 //@   ensures httpResponses == old(httpResponses) + 1
 //@   ensures httpDocs == old(httpDocs) + ite(err != nil || resp != nil, 1, 0)
 //@   ensures err != nil ==> httpLastStatus >= 400
